@@ -71,7 +71,7 @@ def build(claimed):
                   "known_findings.txt as 'fixed:' entries with their /repo commits. Self-tests: python -m sim.cli selftest determinism|sensitivity."),
         "hooks": {
             "guard": "HTA_VERIF",
-            "enable": "no source hooks: every seam is a module attribute of a library (multiprocessing, os, builtins, io, psutil, tracemalloc, threading, time) replaced by the harness inside the simulated session (DESIGN.md 4.2); the guard variable is reserved and unused",
+            "enable": "no source hooks: every seam is a module attribute of a library (multiprocessing, os, shutil, builtins, io, json, tempfile, psutil, tracemalloc, threading, time) replaced by the harness inside the simulated session (DESIGN.md 4.2); the guard variable is reserved and unused",
             "baseline_off_cmd": "cd /repo && /venv/bin/python -m pytest -ra -q -p no:cacheprovider --timeout=900 --continue-on-collection-errors",
             "source_commits": [],
             "add_only": True,
